@@ -3,6 +3,8 @@ package props
 import (
 	"bytes"
 	"errors"
+	"io"
+	"os"
 	"strings"
 	"sync"
 	"testing"
@@ -31,9 +33,13 @@ const (
 	tBAD  = 'B' // undecodable message, nothing after it
 	tBADT = 'T' // undecodable message with trailing data in the same segment
 	tLC   = 'L' // local Close
+	tEOFd = 'e' // the rest of the message in progress (or the next whole message) and EOF in the same Read
+	tERRd = 'r' // ... and a read error in the same Read
 )
 
-func isTermination(e byte) bool { return strings.IndexByte("ERBTL", e) >= 0 }
+const c14Terms = "ERBTLer"
+
+func isTermination(e byte) bool { return strings.IndexByte(c14Terms, e) >= 0 }
 
 const c14MsgLen = 32 // seqMsg(seq, 12)
 
@@ -166,6 +172,18 @@ func runC14(c *ev.Case, ctx *lib.Ctx, order string, waits bool, lc *logCapture) 
 			}
 		case tLC:
 			conn.Close()
+		case tEOFd, tERRd:
+			// n > 0 together with the error: legal for an io.Reader
+			end := delivered + c14MsgLen - delivered%c14MsgLen
+			if end > len(stream) {
+				end = len(stream)
+			}
+			var rerr error = io.EOF
+			if e == tERRd {
+				rerr = errors.New("connection reset by peer")
+			}
+			mc.FeedWithErr(stream[delivered:end], rerr)
+			delivered = end
 		}
 		if isTermination(e) {
 			terminated = true
@@ -239,7 +257,7 @@ func c14Orderings(maxF, maxN int) []string {
 	var out []string
 	var pre func(cur string, f, n int)
 	pre = func(cur string, f, n int) {
-		for _, t := range "ERBTL" {
+		for _, t := range c14Terms {
 			for k := 0; k+n <= maxN; k++ {
 				out = append(out, cur+string(t)+strings.Repeat("t", k))
 			}
@@ -374,6 +392,78 @@ func TestC14(t *testing.T) {
 		o := orders[c.R.IntN(len(orders))]
 		c.Class("racing/term=%s", term(o))
 		run(c, term(o), func() { runC14(c, ctx, o, false, lc) })
+	})
+	// CloseNotify requested from other goroutines exactly while the connection
+	// terminates, on the real scheduler (no bubble): thousands of rounds with a
+	// swept delay. A round that does not finish is decided by the goroutine dump.
+	rec.Suite("notify-vs-termination-stress", rec.N(240, 6000), func(c *ev.Case) {
+		c.Class("stress/kind=%d", c.I%3)
+		rounds := 400
+		for round := 0; round < rounds; round++ {
+			mc := memnet.NewConn()
+			conn, err := diam.NewConn(mc, "peer", diam.HandlerFunc(func(diam.Conn, *diam.Message) {}), ctx.Parser)
+			if err != nil {
+				c.Fail(ev.Sig{"op": "setup"}, nil, nil, "NewConn: %v", err)
+				return
+			}
+			const W = 4
+			done := make(chan struct{}, W+1)
+			spin := func(n int) {
+				x := 0
+				for i := 0; i < n; i++ {
+					x += i
+				}
+				_ = x
+			}
+			d := (round*7 + c.I) % 300
+			go func() {
+				spin(d * 20)
+				switch c.I % 3 {
+				case 0:
+					conn.Close()
+				case 1:
+					mc.FeedEOF()
+				default:
+					mc.Feed(badMessage(false))
+				}
+				done <- struct{}{}
+			}()
+			for w := 0; w < W; w++ {
+				go func(w int) {
+					spin(((round+w*37)%300)*20 + w)
+					ch := conn.(diam.CloseNotifier).CloseNotify()
+					select {
+					case <-ch:
+					case <-time.After(20 * time.Second):
+					}
+					done <- struct{}{}
+				}(w)
+			}
+			deadline := time.After(30 * time.Second)
+			for k := 0; k < W+1; k++ {
+				select {
+				case <-done:
+				case <-deadline:
+					var lockers []string
+					for _, g := range libGoroutines() {
+						if strings.Contains(g.Stack, "sync.(*Mutex).Lock") || strings.Contains(g.Stack, "sync.(*RWMutex)") {
+							lockers = append(lockers, g.Stack)
+						}
+					}
+					if len(lockers) > 0 {
+						c.Fail(ev.Sig{"op": "deadlock-closenotify-vs-termination", "frame": topLibFrame(lockers[0])}, nil, nil,
+							"round %d: CloseNotify requested while the connection terminates never returned; %d goroutines wait for library locks, e.g.\n%s\n---\n%s", round, len(lockers), lockers[0], lockers[len(lockers)-1])
+					} else {
+						c.Fail(ev.Sig{"op": "watchdog"}, nil, nil, "round %d did not finish within 30 s", round)
+					}
+					rec.Close()
+					os.Exit(0)
+				}
+			}
+			mc.FeedEOF()
+			conn.Close()
+		}
+		c.Event("stress_rounds", rounds)
 	})
 	// client + watchdog
 	terms := []byte{tEOF, tERR, tBAD, tBADT, tLC}
